@@ -5,7 +5,6 @@ import (
 	"fmt"
 	"math/rand"
 	"net"
-	"os"
 	"runtime"
 	"strings"
 	"sync"
@@ -327,13 +326,6 @@ func stopRaceCase(c *core.Case) {
 			c.Violation(key, fmt.Sprintf(what, spec.ID), wit)
 			return
 		case porcupine.Unknown:
-			if f := os.Getenv("C20_DUMP_UNKNOWN"); f != "" { // DEV-ONLY
-				var desc []string
-				for _, o := range ops {
-					desc = append(desc, fmt.Sprintf("[%d,%d] client %d: %s", o.Call, o.Return, o.ClientId, queueModel.DescribeOperation(o.Input, o.Output)))
-				}
-				os.WriteFile(fmt.Sprintf("%s.%d.txt", f, c.I), []byte(pl.Variant+"\n"+strings.Join(desc, "\n")+"\n"), 0644)
-			}
 			run.Inconclusive(fmt.Sprintf("porcupine timed out on %s:%d channel %#x (%d operations)", c.Group, c.I, spec.ID, len(ops)))
 			return
 		}
